@@ -7,6 +7,14 @@
                          -> "T agree" | "T viol <why> <matching ids> <page length>"
                             the answer a scan strategy gave (observed by the harness, part of the case line), judged by
                             strategy_check (Ast/ChildStore.v) against the matching set of the unpaged filter
+     M <store> <F|R|A> <Q|C|I|N> <universe|*> <effective sort|-> <status> <ids> <count|-> <text> <n> <mutator>* <term>
+                         -> "M agree" | "M viol <why> <matching ids> <page length>"
+                            an earlier caller of a session (Ast/Session.v): Parse(text), the mutators of ast.Query
+                            (P <text> <predicate term> | K <skip> | L <limit> | A <sort>; X <text> = meanwhile
+                            another caller runs QueryIds(text): no event of this caller), then the evaluation of the
+                            object through one api; the answer is judged by strategy_check against the REFINED query
+                            (refine).  Nothing of an M line is remembered: the lines that follow are judged by their
+                            own text, schema and dataset alone (session_history_irrelevant).
    An S line may end with  H <n> (<child store> <parent store> <0|1 extended> <npath> <path..>)*  : the listed stores
    are child stores; their declaration on the S line holds their OWN symbols, what they expose is child_decl
    (GrantSymbols), what they contain is child_db (both Ast/ChildStore.v).
@@ -135,6 +143,7 @@ let rec parse_untyped () : untyped =
       let lo = parse_lit () in let hi = parse_lit () in UBetween (neg, l, lo, hi)
   | "empty" -> UIsEmpty (parse_setexpr ())
   | "bc" -> UBoolConst (next () = "1")
+  | "nopred" -> UBoolConst true   (* a query without a predicate ("", sort by .., skip .., limit ..) selects everything *)
   | "bs" -> UBoolSym (next_bytes ())
   | "not" -> UNot (parse_untyped ())
   | "and" -> let a = parse_untyped () in let b = parse_untyped () in UAnd (a, b)
@@ -229,6 +238,54 @@ let () =
              end
          | Ok _, "err" -> Printf.printf "T viol rejected %s 0\n" (ids_str (m ()))
          | Ok _, _ -> Printf.printf "T viol panic %s 0\n" (ids_str (m ())))
+    | "M" :: r ->
+        toks := r;
+        let store = nat_of_int (next_int ()) in
+        let kind = (match next () with "F" -> OFwd | "R" -> ORev | _ -> OAny) in
+        let api = next () in
+        let univ = (match !toks with "*" :: r' -> toks := r'; None | _ -> Some (parse_ids ())) in
+        let _sort = next () in
+        let status = next () in
+        let ids = parse_ids () in
+        let count = (match next () with "-" -> None | c -> Some (z_of_dec c)) in
+        let _text = next () in
+        let nm = next_int () in
+        let muts = List.concat (times nm (fun () ->
+          match next () with
+          | "P" -> let _t = next () in [MSetPredicate (parse_untyped ())]
+          | "K" -> [MSetSkip (z_of_dec (next ()))]
+          | "L" -> [MSetLimit (z_of_dec (next ()))]
+          | "A" -> let _s = next () in [MAdoptSort]
+          (* meanwhile ANOTHER caller parses and evaluates a query of its own: not an event of this caller
+             (session_interleaving_independent, caller_view_own_events) *)
+          | "X" -> let _t = next () in []
+          | t -> raise (Parse_error ("mutator " ^ t)))) in
+        let u0 = parse_untyped () in
+        let u = refine u0 muts in
+        (* every text the caller parses has to be well-typed on its own, otherwise ast.Parse fails *)
+        let well_typed x = (match typer !schema store x with Ok _ -> true | _ -> false) in
+        let parts_ok = well_typed u0 &&
+          List.for_all (fun m -> match m with MSetPredicate p -> well_typed (UQuery (p, None, None)) | _ -> true) muts in
+        let kind = if api = "I" then OFwd else kind in
+        let m () = matching fmt_float_go_memo fmt_time_none !schema db store univ u in
+        let plen l = List.length (page (match u with UQuery (_, s, _) -> s | _ -> None)
+                                       (match u with UQuery (_, _, l) -> l | _ -> None) l) in
+        (match parts_ok, typer !schema store u, status with
+         | _, Panic, _ -> print_endline "M viol model-panic - 0"
+         | true, Err, _ -> print_endline "M viol model-panic - 0"
+         | false, _, "err" -> print_endline "M agree"
+         | false, _, "ok" -> print_endline "M viol accepted - 0"
+         | false, _, _ -> print_endline "M viol panic - 0"
+         | true, Ok _, "ok" ->
+             if api = "N" || strategy_check fmt_float_go_memo fmt_time_none !schema db store kind univ u ids count
+             then print_endline "M agree"
+             else begin
+               let mm = m () in
+               let ids_ok = strategy_check fmt_float_go_memo fmt_time_none !schema db store kind univ u ids None in
+               Printf.printf "M viol %s %s %d\n" (if ids_ok then "count" else "ids") (ids_str mm) (plen mm)
+             end
+         | true, Ok _, "err" -> Printf.printf "M viol rejected %s 0\n" (ids_str (m ()))
+         | true, Ok _, _ -> Printf.printf "M viol panic %s 0\n" (ids_str (m ())))
     | "Q" :: r ->
         toks := r;
         let store = nat_of_int (next_int ()) in
